@@ -153,6 +153,11 @@ pub fn extreme_felts() -> Vec<(&'static str, Felt)> {
     vec![
         ("0", Felt::ZERO),
         ("1", Felt::ONE),
+        ("5", Felt::from(5u64)),
+        ("17", Felt::from(17u64)),
+        ("30", Felt::from(30u64)),
+        ("63", Felt::from(63u64)),
+        ("65", Felt::from(65u64)),
         ("2^16", models::pow2(16)),
         ("2^40", models::pow2(40)),
         ("2^64", models::pow2(64)),
@@ -219,6 +224,42 @@ pub fn redeclare(image: &Value) -> Vec<Fault> {
     // last layer bound: keep sum(steps) + bound + cosets == log_input_size
     let used: Felt = steps.iter().skip(1).take(n_inner).fold(Felt::ZERO, |a, b| a + b);
     set("config.fri.log_last_layer_degree_bound".into(), log_eval - log_cosets - used);
+    out
+}
+
+/// Byzantine multi-field re-declarations of the FRI description that keep every cross-check the
+/// configuration validation is *supposed* to make consistent except the one bound under attack:
+/// one inner layer with a single big step S (sum of steps + last-layer bound still equals the
+/// trace exponent, heights telescope, 2^S columns).
+pub fn byzantine_fri_redeclarations(image: &Value) -> Vec<(String, Vec<Fault>)> {
+    let cfg = &image["config"];
+    let f = |v: &Value| image::felt_of(v).unwrap_or(Felt::ZERO);
+    let to_u = |x: Felt| -> Option<u64> { x.to_biguint().try_into().ok() };
+    let (Some(log_trace), Some(log_cosets)) = (to_u(f(&cfg["log_trace_domain_size"])), to_u(f(&cfg["log_n_cosets"]))) else { return vec![] };
+    let n_inner = cfg["fri"]["inner_layers"].as_array().map(|a| a.len()).unwrap_or(0);
+    if n_inner == 0 || log_trace > 64 {
+        return vec![];
+    }
+    let log_eval = log_trace + log_cosets;
+    let mut out = Vec::new();
+    for s_big in [5u64, 6, 9, 13, 17, 20, log_trace] {
+        if s_big > log_trace || log_trace - s_big > 15 {
+            continue;
+        }
+        let hexu = |x: u64| image::felt_hex(&Felt::from(x));
+        let fl = vec![
+            Fault::Truncate { path: "config.fri.fri_step_sizes".into(), len: 2 },
+            Fault::Set { path: "config.fri.fri_step_sizes[1]".into(), value: hexu(s_big) },
+            Fault::Truncate { path: "config.fri.inner_layers".into(), len: 1 },
+            Fault::Set { path: "config.fri.inner_layers[0].n_columns".into(), value: image::felt_hex(&models::pow2(s_big)) },
+            Fault::Set { path: "config.fri.inner_layers[0].vector.height".into(), value: hexu(log_eval - s_big) },
+            Fault::Set { path: "config.fri.n_layers".into(), value: hexu(2) },
+            Fault::Set { path: "config.fri.log_last_layer_degree_bound".into(), value: hexu(log_trace - s_big) },
+            Fault::Truncate { path: "unsent_commitment.fri.inner_layers".into(), len: 1 },
+            Fault::Truncate { path: "witness.fri_witness.layers".into(), len: 1 },
+        ];
+        out.push((format!("fri-one-big-step:{s_big}"), fl));
+    }
     out
 }
 
@@ -503,12 +544,13 @@ pub fn c18(ctx: &mut Ctx) {
             work.push(("structural".into(), fl));
         }
         let mut nf = numeric_faults(&base.image, true);
-        if !exhaustive && nf.len() > 400 {
+        if !exhaustive && nf.len() > 600 {
             // dynamic layout has hundreds of numeric parameters: sample
             rng.shuffle(&mut nf);
-            nf.truncate(400);
+            nf.truncate(600);
         }
         work.extend(nf.into_iter().map(|(n, f)| (format!("numeric:{n}"), f)));
+        work.extend(byzantine_fri_redeclarations(&base.image).into_iter().map(|(n, f)| (format!("byzantine:{n}"), f)));
         // combinations of 2..4 single faults
         let singles: Vec<Vec<Fault>> = work.iter().map(|(_, f)| f.clone()).collect();
         let n_combo = if exhaustive { 400 } else { 40 };
@@ -648,10 +690,11 @@ pub fn c17(ctx: &mut Ctx) {
     for (bi, base) in bases.iter().enumerate() {
         let mut rng = Rng::derive(ctx.seed, scenario, bi as u64);
         let mut work: Vec<(String, Vec<Fault>)> = numeric_faults(&base.image, true);
-        if ctx.is_quick() && work.len() > 500 {
+        if ctx.is_quick() && work.len() > 700 {
             rng.shuffle(&mut work);
-            work.truncate(500);
+            work.truncate(700);
         }
+        work.extend(byzantine_fri_redeclarations(&base.image));
         // control: vector-length inflation (more data => more work, must stay in budget)
         for (p, len) in image::vectors(&base.image) {
             if len > 0 && len < 4096 {
